@@ -51,7 +51,7 @@ static int A_alg, DEC;
 static node *nodes; static int nnodes;
 static int *htab; static int hsize = 1 << 19;
 static long transitions, replays, merged, nonconfluent;
-static int maxdepth, chunkmul = 2;
+static int maxdepth, chunkmul = 2, dirty_fill;
 typedef struct { uint64_t w[64]; } objbuf;
 
 static uint32_t hkey(const node *n)
@@ -87,6 +87,7 @@ static int g_sq;
 static int apply(objbuf *obj, const hop *h, int hl, int check, int *pa, int *ps, int *pterm, char *why, size_t whycap)
 {
     int a = 0, s = 0, term = 0, bad = 0; g_sq = 0;
+    memset(obj, dirty_fill, sizeof *obj);   /* what the storage held before must not matter */
     M->init(obj);
     for (int i = 0; i < hl; i++) {
         int last = check && i == hl - 1; int n = h[i].n;
@@ -199,6 +200,10 @@ static void explore(void)
                 apply(&obj, nx.h, nx.hl, 0, &a2, &s2, &t2, w2, sizeof w2); replays++;
                 int l2 = M->canon(&obj, k2); M->freef(&obj);
                 if (l2 != nx.kl || memcmp(k2, nx.key, l2)) { hist_str(&nx, 0, hs, sizeof hs); printf("HARNESS-NONDETERMINISM history [%s] gives two different canonical states\n", hs); exit(3); }
+                /* the same history on storage that held other bytes before the object was initialised */
+                dirty_fill = (nnodes & 1) ? 0xFF : 0xA5; apply(&obj, nx.h, nx.hl, 0, &a2, &s2, &t2, w2, sizeof w2); replays++; dirty_fill = 0;
+                l2 = M->canon(&obj, k2); M->freef(&obj);
+                if (l2 != nx.kl || memcmp(k2, nx.key, l2)) { hist_str(&nx, 0, hs, sizeof hs); hx_fail(kb, "the observable state after history [%s] depends on what the object's memory held before initialisation", hs); }
             }
         }
     }
@@ -316,12 +321,56 @@ static int aead_canon(void *o, uint8_t *k)
 
 static machine mk(const char *name, int in_rate, int out_rate) { machine m; memset(&m, 0, sizeof m); m.name = name; m.in_rate = in_rate; m.out_rate = out_rate; return m; }
 
+/* many small calls: 66,001 bytes in and out in chunks of 7 and 13 (thousands of calls on one object: counters, positions and block bookkeeping far from their initial values) against a single call */
+static void longrun(int A)
+{
+    enum { L = 66001 }; static uint8_t in[L], o1[L + 16], o2[L + 16]; uint8_t d1[32], d2[32]; char kb[48];
+    hx_fill(in, L, HX_P_DENSE, 77);
+#define CHUNKED(total, step, call) do { size_t done_ = 0; while (done_ < (size_t)(total)) { size_t n_ = (size_t)(total) - done_ < (step) ? (size_t)(total) - done_ : (step); call; done_ += n_; } } while (0)
+#define CMP(name, a, b, n) do { hx_stat("evaluations", 1); hx_stat("transitions", (n) / 7 + (n) / 13); if (memcmp(a, b, n)) { snprintf(kb, sizeof kb, "chunking:longrun:%s%s", name, A ? "a" : ""); size_t i_ = 0; while ((a)[i_] == (b)[i_]) i_++; hx_fail(kb, "%d bytes in chunks of 7 / 13 differ from the single-call result at byte %zu", L, i_); } } while (0)
+    { union { ascon_hash_state_t h; ascon_hasha_state_t ha; } s;
+      if (A) { ascon_hasha(d1, in, L); ascon_hasha_init(&s.ha); CHUNKED(L, 7, ascon_hasha_update(&s.ha, in + done_, n_)); ascon_hasha_finalize(&s.ha, d2); ascon_hasha_free(&s.ha); }
+      else { ascon_hash(d1, in, L); ascon_hash_init(&s.h); CHUNKED(L, 7, ascon_hash_update(&s.h, in + done_, n_)); ascon_hash_finalize(&s.h, d2); ascon_hash_free(&s.h); }
+      ref_hash(A, in, L, o1); CMP("hash", d1, d2, 32); CMP("hash-vs-reference", d1, o1, 32); }
+    { union { ascon_xof_state_t x; ascon_xofa_state_t xa; } s;
+      if (A) { ascon_xofa_init(&s.xa); ascon_xofa_absorb(&s.xa, in, L); ascon_xofa_squeeze(&s.xa, o1, L); ascon_xofa_free(&s.xa); ascon_xofa_init(&s.xa); CHUNKED(L, 7, ascon_xofa_absorb(&s.xa, in + done_, n_)); CHUNKED(L, 13, ascon_xofa_squeeze(&s.xa, o2 + done_, n_)); ascon_xofa_free(&s.xa); }
+      else { ascon_xof_init(&s.x); ascon_xof_absorb(&s.x, in, L); ascon_xof_squeeze(&s.x, o1, L); ascon_xof_free(&s.x); ascon_xof_init(&s.x); CHUNKED(L, 7, ascon_xof_absorb(&s.x, in + done_, n_)); CHUNKED(L, 13, ascon_xof_squeeze(&s.x, o2 + done_, n_)); ascon_xof_free(&s.x); }
+      CMP("xof", o1, o2, L); ref_xof(A, in, L, o2, 64); CMP("xof-vs-reference", o1, o2, 64); }
+    { union { ascon_hmac_state_t h; ascon_hmaca_state_t ha; } s;
+      if (A) { ascon_hmaca(d1, KEY, 20, in, L); ascon_hmaca_init(&s.ha, KEY, 20); CHUNKED(L, 7, ascon_hmaca_update(&s.ha, in + done_, n_)); ascon_hmaca_finalize(&s.ha, KEY, 20, d2); ascon_hmaca_free(&s.ha); }
+      else { ascon_hmac(d1, KEY, 20, in, L); ascon_hmac_init(&s.h, KEY, 20); CHUNKED(L, 7, ascon_hmac_update(&s.h, in + done_, n_)); ascon_hmac_finalize(&s.h, KEY, 20, d2); ascon_hmac_free(&s.h); }
+      CMP("hmac", d1, d2, 32); }
+    { union { ascon_kmac_state_t k; ascon_kmaca_state_t ka; } s;
+      if (A) { ascon_kmaca(KEY, 16, in, L, CUSTOM, 5, o1, 4000); ascon_kmaca_init(&s.ka, KEY, 16, CUSTOM, 5, 4000); CHUNKED(L, 7, ascon_kmaca_absorb(&s.ka, in + done_, n_)); CHUNKED(4000, 13, ascon_kmaca_squeeze(&s.ka, o2 + done_, n_)); ascon_kmaca_free(&s.ka); }
+      else { ascon_kmac(KEY, 16, in, L, CUSTOM, 5, o1, 4000); ascon_kmac_init(&s.k, KEY, 16, CUSTOM, 5, 4000); CHUNKED(L, 7, ascon_kmac_absorb(&s.k, in + done_, n_)); CHUNKED(4000, 13, ascon_kmac_squeeze(&s.k, o2 + done_, n_)); ascon_kmac_free(&s.k); }
+      CMP("kmac", o1, o2, 4000); }
+    { union { ascon_hkdf_state_t h; ascon_hkdfa_state_t ha; } s; int r = 0;
+      if (A) { ascon_hkdfa(o1, 8160, KEY, 20, NONCE, 16, AD, 7); ascon_hkdfa_extract(&s.ha, KEY, 20, NONCE, 16); CHUNKED(8160, 13, r |= ascon_hkdfa_expand(&s.ha, AD, 7, o2 + done_, n_)); ascon_hkdfa_free(&s.ha); }
+      else { ascon_hkdf(o1, 8160, KEY, 20, NONCE, 16, AD, 7); ascon_hkdf_extract(&s.h, KEY, 20, NONCE, 16); CHUNKED(8160, 13, r |= ascon_hkdf_expand(&s.h, AD, 7, o2 + done_, n_)); ascon_hkdf_free(&s.h); }
+      CMP("hkdf", o1, o2, 8160); if (r) hx_fail("chunking:longrun:hkdf", "an expand call within the 8160-byte limit was refused"); }
+    if (!A) {
+        ascon_prf_state_t s; ascon_prf(o1, L, in, L, KEY); ascon_prf_init(&s, KEY); CHUNKED(L, 7, ascon_prf_absorb(&s, in + done_, n_)); CHUNKED(L, 13, ascon_prf_squeeze(&s, o2 + done_, n_)); ascon_prf_free(&s);
+        CMP("prf", o1, o2, L);
+        for (int alg = 0; alg < 3; alg++) {
+            size_t cl = 0; api_inc_state st; char nm[24];
+            api_aead_enc[alg](o1, &cl, in, L, AD, 5, NONCE, KEY);
+            api_inc_init[alg](&st, NONCE, KEY); api_inc_start[alg](&st, AD, 5); CHUNKED(L, 7, api_inc_enc[alg](&st, in + done_, o2 + done_, n_)); api_inc_encfin[alg](&st, o2 + L); api_inc_free[alg](&st);
+            snprintf(nm, sizeof nm, "enc%s", api_alg_name[alg]); CMP(nm, o1, o2, L + 16);
+            api_inc_init[alg](&st, NONCE, KEY); api_inc_start[alg](&st, AD, 5); memcpy(o2, o1, L); CHUNKED(L, 13, api_inc_dec[alg](&st, o2 + done_, o2 + done_, n_)); int r = api_inc_decfin[alg](&st, o1 + L); api_inc_free[alg](&st);
+            snprintf(nm, sizeof nm, "dec%s", api_alg_name[alg]); CMP(nm, o2, in, L); if (r) { snprintf(kb, sizeof kb, "chunking:longrun:%s", nm); hx_fail(kb, "genuine tag rejected after %d in-place chunks", L / 13); }
+        }
+    }
+    hx_stat("states", 1); hx_stat("traces_validated", 1);
+    hx_sample("long run a=%d: %d bytes through every incremental interface in chunks of 7 (in) / 13 (out) against the single-call result", A, L);
+}
+
 int main(int argc, char **argv)
 {
     hx_init();
     if (argc < 3) return 2;
     const char *mn = argv[1]; int tier = atoi(argv[2]);
     hx_fill(MSG, sizeof MSG, HX_P_DENSE, 4); hx_fill(KEY, sizeof KEY, HX_P_DENSE, 1); hx_fill(NONCE, 16, HX_P_DENSE, 2); hx_fill(AD, 16, HX_P_DENSE, 3); hx_fill(CUSTOM, 16, HX_P_DENSE, 5);
+    if (!strncmp(mn, "longrun", 7)) { longrun(mn[7] == '-'); hx_finish(); return 0; }
     machine m; char base[32]; int variant = 0;
     /* name syntax: xof, xofa, xof:fixed, xof:custom, hash, hasha, prf, prf:fixed, kmac, kmaca, kdf, kdfa, hmac, hmaca, hkdf, hkdfa, enc128, enc128a, enc80pq, dec128, ... */
     snprintf(base, sizeof base, "%s", mn); char *colon = strchr(base, ':'); if (colon) { *colon = 0; variant = !strcmp(colon + 1, "fixed") ? 1 : 2; }
